@@ -992,7 +992,8 @@ fn gen_c15(ch: &mut Choices) -> Plan {
                 let mut p = mk_publish(ver, ch, 80 + k, 0, None, len);
                 p.topic = String::new();
                 p.props.retain(|(id, _)| *id != 35);
-                p.props.push((35, PropVal::U16(3)));
+                // an alias that was never bound: inside the advertised maximum (default 32) or beyond it
+                p.props.push((35, PropVal::U16(*ch.pick(&[3u16, 32, 33, 500, 65535]))));
                 plan.tags.push("inject:unknown-alias:0x94".into());
                 plan.peer.script.insert(at, step(Pkt::Publish(p), ver, Pre::Connected));
             }
